@@ -450,6 +450,23 @@ impl BsUnit {
             .binary_search_by_key(&pc, |line| line.address)
             .unwrap_or_else(|p| p.saturating_sub(1));
 
+        // Several rows may share the address of the found row: typically the end_sequence row of
+        // a function and the first row of the function that starts where the previous one ends.
+        // The row in effect is the last one (in line program order) that does not end a sequence.
+        let addr = self.lines.get(pos)?.address;
+        let mut first = pos;
+        while first > 0 && self.lines[first - 1].address == addr {
+            first -= 1;
+        }
+        let mut last = pos;
+        while last + 1 < self.lines.len() && self.lines[last + 1].address == addr {
+            last += 1;
+        }
+        let pos = (first..=last)
+            .rev()
+            .find(|&idx| !self.lines[idx].end_sequence())
+            .unwrap_or(pos);
+
         self.find_place_by_idx(pos)
     }
 
